@@ -18,6 +18,7 @@ import (
 	"reflect"
 	"sort"
 	"strings"
+	"sync"
 	"time"
 
 	"github.com/iden3/go-iden3-core/v2/w3c"
@@ -273,21 +274,21 @@ func (d *drv) verifyOutcome(vc *verifiable.W3CCredential, pt verifiable.ProofTyp
 
 // credCase runs one credential document through the implementation, the oracles
 // (valid stream only) and records the case for the Coq model.
-func (d *drv) credCase(in *Input) {
+func (d *drv) credCase(in *Input, rep *common.Report) *caseRec {
 	doc, err := Parse([]byte(in.Doc))
 	if err != nil {
-		d.rep.Notes = append(d.rep.Notes, "unparseable document skipped: "+err.Error())
-		return
+		rep.Notes = append(rep.Notes, "unparseable document skipped: "+err.Error())
+		return nil
 	}
 	raw := []byte(in.Doc)
 	var o *obs
 	var vc *verifiable.W3CCredential
 	if pv := guard(func() { o, vc = d.runCred(raw) }); pv != nil {
-		d.rep.Fail("c14-panic", fmt.Sprint("panic while decoding / encoding / merklizing a credential: ", pv), in)
-		return
+		rep.Fail("c14-panic", fmt.Sprint("panic while decoding / encoding / merklizing a credential: ", pv), in)
+		return nil
 	}
-	d.rep.Evaluations++
-	d.cases = append(d.cases, &caseRec{in: in, doc: doc, o: o})
+	rep.Evaluations++
+	rec := &caseRec{in: in, doc: doc, o: o}
 	cls := "ok"
 	switch {
 	case o.decodeErr != "":
@@ -297,33 +298,33 @@ func (d *drv) credCase(in *Input) {
 	case o.mzErr != "":
 		cls = "merklize-error"
 	}
-	d.rep.Count("cred:" + in.Stream + ":" + cls)
-	d.rep.Count(fmt.Sprintf("cred:%s:proofs=%d", in.Stream, len(o.kinds)))
+	rep.Count("cred:" + in.Stream + ":" + cls)
+	rep.Count(fmt.Sprintf("cred:%s:proofs=%d", in.Stream, len(o.kinds)))
 	if in.Stream != "valid" {
-		return
+		return rec
 	}
 	// ---- implementation-side oracles (documents of the supported shape) ----
 	if o.decodeErr != "" {
-		d.rep.Fail("c14-valid-doc-rejected", "document of the supported shape does not decode: "+o.decodeErr, in)
-		return
+		rep.Fail("c14-valid-doc-rejected", "document of the supported shape does not decode: "+o.decodeErr, in)
+		return rec
 	}
 	if o.encErr != "" {
-		d.rep.Fail("c14-valid-doc-not-encodable", "decoded credential does not marshal: "+o.encErr, in)
-		return
+		rep.Fail("c14-valid-doc-not-encodable", "decoded credential does not marshal: "+o.encErr, in)
+		return rec
 	}
 	// O1: root of the struct view == root of the original document minus proof
 	ref, rerr := d.refRoot(raw)
 	switch {
 	case rerr != nil && o.mzErr != "":
-		d.rep.Count("cred:valid:both-merklizations-fail")
+		rep.Count("cred:valid:both-merklizations-fail")
 	case rerr != nil || o.mzErr != "":
-		d.rep.Fail("c14-merklize-outcome-differs", fmt.Sprintf("W3CCredential.Merklize: %q; MerklizeJSONLD(original minus proof): %v", o.mzErr, rerr), in)
+		rep.Fail("c14-merklize-outcome-differs", fmt.Sprintf("W3CCredential.Merklize: %q; MerklizeJSONLD(original minus proof): %v", o.mzErr, rerr), in)
 	case ref != o.root:
-		d.rep.Fail("c14-root-differs", fmt.Sprintf("W3CCredential.Merklize().Root() = %s, MerklizeJSONLD(original minus proof).Root() = %s", o.root, ref), in)
+		rep.Fail("c14-root-differs", fmt.Sprintf("W3CCredential.Merklize().Root() = %s, MerklizeJSONLD(original minus proof).Root() = %s", o.root, ref), in)
 	}
 	// expected concrete proof kinds
 	if in.Kinds != nil && strings.Join(in.Kinds, ",") != strings.Join(o.kinds, ",") {
-		d.rep.Fail("c14-proof-kind", fmt.Sprintf("decoded proof types %v, expected %v", o.kinds, in.Kinds), in)
+		rep.Fail("c14-proof-kind", fmt.Sprintf("decoded proof types %v, expected %v", o.kinds, in.Kinds), in)
 	}
 	// O2: the root does not depend on the proofs
 	for i, v := range in.Variants {
@@ -338,40 +339,40 @@ func (d *drv) credCase(in *Input) {
 		}
 		var vo *obs
 		if pv := guard(func() { vo, _ = d.runCred(vd.Bytes()) }); pv != nil {
-			d.rep.Fail("c14-panic", fmt.Sprint("panic on a proof variant: ", pv), in)
+			rep.Fail("c14-panic", fmt.Sprint("panic on a proof variant: ", pv), in)
 			continue
 		}
-		d.rep.Evaluations++
+		rep.Evaluations++
 		if vo.decodeErr != "" || vo.encErr != "" {
-			d.rep.Fail("c14-valid-doc-rejected", fmt.Sprintf("proof variant %d does not decode / encode: %s%s", i, vo.decodeErr, vo.encErr), in)
+			rep.Fail("c14-valid-doc-rejected", fmt.Sprintf("proof variant %d does not decode / encode: %s%s", i, vo.decodeErr, vo.encErr), in)
 			continue
 		}
 		if vo.root != o.root || (vo.mzErr == "") != (o.mzErr == "") {
-			d.rep.Fail("c14-root-depends-on-proof", fmt.Sprintf("root %s (%s) with the original proofs, %s (%s) with proof variant %d", o.root, o.mzErr, vo.root, vo.mzErr, i), in)
+			rep.Fail("c14-root-depends-on-proof", fmt.Sprintf("root %s (%s) with the original proofs, %s (%s) with proof variant %d", o.root, o.mzErr, vo.root, vo.mzErr, i), in)
 		}
 	}
 	// O3: marshal -> unmarshal gives an equal credential with the same proof types
 	var vc2 verifiable.W3CCredential
 	if err := json.Unmarshal(o.enc.Bytes(), &vc2); err != nil {
-		d.rep.Fail("c14-roundtrip-rejected", "json.Marshal output does not decode: "+err.Error(), in)
-		return
+		rep.Fail("c14-roundtrip-rejected", "json.Marshal output does not decode: "+err.Error(), in)
+		return rec
 	}
 	var k2 []string
 	for _, p := range vc2.Proof {
 		k2 = append(k2, typeName(p))
 	}
 	if strings.Join(k2, ",") != strings.Join(o.kinds, ",") {
-		d.rep.Fail("c14-proof-kind-changed", fmt.Sprintf("proof types %v before, %v after the round trip", o.kinds, k2), in)
+		rep.Fail("c14-proof-kind-changed", fmt.Sprintf("proof types %v before, %v after the round trip", o.kinds, k2), in)
 	}
 	if !deepEq(reflect.ValueOf(vc).Elem(), reflect.ValueOf(&vc2).Elem()) {
-		d.rep.Fail("c14-roundtrip-unequal", "decode(encode(c)) differs from c", in)
+		rep.Fail("c14-roundtrip-unequal", "decode(encode(c)) differs from c", in)
 	}
 	if !reflect.DeepEqual(vc.CredentialSubject, vc2.CredentialSubject) || !reflect.DeepEqual(vc.CredentialStatus, vc2.CredentialStatus) {
-		d.rep.Fail("c14-roundtrip-unequal", "credentialSubject / credentialStatus differ after the round trip", in)
+		rep.Fail("c14-roundtrip-unequal", "credentialSubject / credentialStatus differ after the round trip", in)
 	}
 	enc2, err := json.Marshal(&vc2)
 	if err != nil || string(enc2) != string(o.enc.Bytes()) {
-		d.rep.Fail("c14-roundtrip-unequal", "encode(decode(encode(c))) differs from encode(c)", in)
+		rep.Fail("c14-roundtrip-unequal", "encode(decode(encode(c))) differs from encode(c)", in)
 	}
 	// O5: verifies identically (outcome of VerifyProof without a DID resolver: reaches
 	// GetCoreClaim and the credential / claim binding check)
@@ -384,53 +385,54 @@ func (d *drv) credCase(in *Input) {
 		seen[string(pt)] = true
 		a, b := d.verifyOutcome(vc, pt), d.verifyOutcome(&vc2, pt)
 		if a != b {
-			d.rep.Fail("c14-verify-outcome-differs", fmt.Sprintf("VerifyProof(%s): %q before, %q after the round trip", pt, a, b), in)
+			rep.Fail("c14-verify-outcome-differs", fmt.Sprintf("VerifyProof(%s): %q before, %q after the round trip", pt, a, b), in)
 		}
 	}
+	return rec
 }
 
-func (d *drv) didCase(in *Input) {
+func (d *drv) didCase(in *Input, rep *common.Report) *caseRec {
 	doc, err := Parse([]byte(in.Doc))
 	if err != nil {
-		return
+		return nil
 	}
 	var o *obs
 	var dd *verifiable.DIDDocument
 	if pv := guard(func() { o, dd = d.runDID([]byte(in.Doc)) }); pv != nil {
-		d.rep.Fail("c14-panic", fmt.Sprint("panic while decoding / encoding a DID document: ", pv), in)
-		return
+		rep.Fail("c14-panic", fmt.Sprint("panic while decoding / encoding a DID document: ", pv), in)
+		return nil
 	}
-	d.rep.Evaluations++
-	d.cases = append(d.cases, &caseRec{in: in, doc: doc, o: o})
+	rep.Evaluations++
+	rec := &caseRec{in: in, doc: doc, o: o}
 	cls := "ok"
 	if o.decodeErr != "" {
 		cls = "decode-error"
 	} else if o.encErr != "" {
 		cls = "encode-error"
 	}
-	d.rep.Count("did:" + in.Stream + ":" + cls)
+	rep.Count("did:" + in.Stream + ":" + cls)
 	if in.Stream != "valid" {
-		return
+		return rec
 	}
 	if o.decodeErr != "" || o.encErr != "" {
-		d.rep.Fail("c14-valid-did-rejected", "DID document does not decode / encode: "+o.decodeErr+o.encErr, in)
-		return
+		rep.Fail("c14-valid-did-rejected", "DID document does not decode / encode: "+o.decodeErr+o.encErr, in)
+		return rec
 	}
 	var d2 verifiable.DIDDocument
 	if err := json.Unmarshal(o.enc.Bytes(), &d2); err != nil {
-		d.rep.Fail("c14-did-roundtrip-rejected", "json.Marshal output does not decode: "+err.Error(), in)
-		return
+		rep.Fail("c14-did-roundtrip-rejected", "json.Marshal output does not decode: "+err.Error(), in)
+		return rec
 	}
 	k2 := append(authKinds(d2.AssertionMethod), authKinds(d2.Authentication)...)
 	if strings.Join(k2, ",") != strings.Join(o.kinds, ",") {
-		d.rep.Fail("c14-did-auth-kind-changed", fmt.Sprintf("authentication entries %v before, %v after the round trip", o.kinds, k2), in)
+		rep.Fail("c14-did-auth-kind-changed", fmt.Sprintf("authentication entries %v before, %v after the round trip", o.kinds, k2), in)
 	}
 	if !deepEq(reflect.ValueOf(dd).Elem(), reflect.ValueOf(&d2).Elem()) {
-		d.rep.Fail("c14-did-roundtrip-unequal", "decode(encode(d)) differs from d", in)
+		rep.Fail("c14-did-roundtrip-unequal", "decode(encode(d)) differs from d", in)
 	}
 	enc2, err := json.Marshal(&d2)
 	if err != nil || string(enc2) != string(o.enc.Bytes()) {
-		d.rep.Fail("c14-did-roundtrip-unequal", "encode(decode(encode(d))) differs from encode(d)", in)
+		rep.Fail("c14-did-roundtrip-unequal", "encode(decode(encode(d))) differs from encode(d)", in)
 	}
 	// the re-encoded document says the same as the original on every member the struct knows
 	var om, em map[string]interface{}
@@ -438,9 +440,10 @@ func (d *drv) didCase(in *Input) {
 	_ = json.Unmarshal(o.enc.Bytes(), &em)
 	for _, k := range []string{"@context", "id", "service", "keyAgreement"} {
 		if !reflect.DeepEqual(om[k], em[k]) {
-			d.rep.Fail("c14-did-member-changed", "member "+k+" changed by decode/encode", in)
+			rep.Fail("c14-did-member-changed", "member "+k+" changed by decode/encode", in)
 		}
 	}
+	return rec
 }
 
 // ---- oracle tables ----
@@ -638,7 +641,86 @@ func featKey(feat map[string]bool) string {
 	return strings.Join(ks, "+")
 }
 
+// job is one generated document with the evidence bookkeeping to do once it has run.
+type job struct {
+	in      *Input
+	feat    map[string]bool
+	counts  []string // distribution keys
+	dkey    string   // prefix of the distinct-case key
+	sample  bool
+	rep     *common.Report
+	rec     *caseRec
+	isValid bool
+}
+
+func (d *drv) runJobs(jobs []*job) {
+	workers := 8
+	if n := os.Getenv("VERIF_C14_WORKERS"); n != "" {
+		fmt.Sscan(n, &workers)
+	}
+	ch := make(chan *job)
+	var wg sync.WaitGroup
+	for w := 0; w < workers; w++ {
+		wg.Add(1)
+		go func() {
+			defer wg.Done()
+			for j := range ch {
+				j.rep = common.NewReport("C14")
+				if j.in.Kind == "did" {
+					j.rec = d.didCase(j.in, j.rep)
+				} else {
+					j.rec = d.credCase(j.in, j.rep)
+				}
+			}
+		}()
+	}
+	for _, j := range jobs {
+		ch <- j
+	}
+	close(ch)
+	wg.Wait()
+}
+
+// merge folds the private reports into the run's report, in generation order.
+func (d *drv) merge(jobs []*job) (okRoots, nValid int) {
+	rep := d.rep
+	for _, j := range jobs {
+		rep.Evaluations += j.rep.Evaluations
+		rep.Failures = append(rep.Failures, j.rep.Failures...)
+		rep.Notes = append(rep.Notes, j.rep.Notes...)
+		for k, v := range j.rep.Distribution {
+			rep.Distribution[k] += v
+		}
+		for _, c := range j.counts {
+			rep.Count(c)
+		}
+		if j.rec == nil {
+			continue
+		}
+		d.cases = append(d.cases, j.rec)
+		o := j.rec.o
+		if j.isValid {
+			nValid++
+			if o.root != "" {
+				okRoots++
+			} else if os.Getenv("C14_DEBUG") != "" {
+				fmt.Fprintf(os.Stderr, "no root: decode=%q enc=%q mz=%q\n%s\n", o.decodeErr, o.encErr, o.mzErr, j.in.Doc)
+			}
+		}
+		cls := "ok"
+		if o.decodeErr != "" {
+			cls = "err"
+		}
+		rep.Distinct(j.dkey + "|" + featKey(j.feat) + "|" + cls + "|" + strings.Join(o.kinds, ","))
+		if j.sample || len(j.rep.Failures) > 0 {
+			rep.Sample(map[string]any{"kind": j.in.Kind, "stream": j.in.Stream, "doc": json.RawMessage(j.in.Doc), "kinds": o.kinds, "root": o.root, "decode_error": o.decodeErr, "merklize_error": o.mzErr})
+		}
+	}
+	return okRoots, nValid
+}
+
 func Run(cfg *common.Config) (*common.Report, error) {
+	tStart := time.Now()
 	rep := common.NewReport("C14")
 	rep.Correspondence = "Codec.Run.cmismatches: cred_decode / cred_encode / cred_merklize_doc / did_decode / did_encode (coq/Codec/Model.v on the descriptors of coq/Generated/Structs.v) vs json.Unmarshal / json.Marshal on verifiable.W3CCredential and verifiable.DIDDocument and the document W3CCredential.Merklize hands to merklize.MerklizeJSONLD (Merklizer.VerifSrcDoc)"
 	rep.Rule = "credential documents of the supported shape with every optional member on/off (id, dates in 8x5x11x10 spellings, credentialStatus, refreshService, displayMethod, null optionals), shuffled member order, random subject objects (strings, integers, doubles, big numbers, booleans, dates, nested objects, arrays), 0..4 proofs of the three known and of unknown types in array / single-object / empty / absent form; documents outside the shape (odd dates, wrong member types, unknown / case-variant / duplicated members, broken proofs); DID documents with reference / embedded authentication entries, state info and GIST proofs. distinct = distinct (stream, feature set, decode outcome, proof kinds) tuples; non-trivial = the document has at least one optional member, proof or non-default spelling."
@@ -655,22 +737,27 @@ func Run(cfg *common.Config) (*common.Report, error) {
 			return nil, err
 		}
 		in := rf.Input
+		var c *caseRec
 		if in.Kind == "did" {
-			d.didCase(&in)
+			c = d.didCase(&in, rep)
 		} else {
-			d.credCase(&in)
+			c = d.credCase(&in, rep)
 		}
-		for _, c := range d.cases {
+		if c != nil {
+			d.cases = append(d.cases, c)
 			rep.Sample(map[string]any{"input": c.in, "decode_error": c.o.decodeErr, "encode_error": c.o.encErr, "proof_kinds": c.o.kinds, "root": c.o.root, "merklize_error": c.o.mzErr})
 			fmt.Printf("replay: kind=%s decode_error=%q encode_error=%q kinds=%v root=%s merklize_error=%q failures=%d\n", c.in.Kind, c.o.decodeErr, c.o.encErr, c.o.kinds, c.o.root, c.o.mzErr, len(rep.Failures))
+			for _, f := range rep.Failures {
+				fmt.Printf("replay: [%s] %s\n", f.Class, f.What)
+			}
 		}
 		return rep, d.writeShards()
 	}
 
 	g := &gen{rng: cfg.Rng}
+	var jobs []*job
 	// A. supported shape
 	nValid := cfg.Pick(150, 1500)
-	okRoots := 0
 	for i := 0; i < nValid; i++ {
 		g.feat = map[string]bool{}
 		doc := g.credential()
@@ -687,6 +774,7 @@ func Run(cfg *common.Config) (*common.Report, error) {
 		case np == 0 && form == 0:
 			doc.Set("proof", Arr())
 			g.mark("proof-empty-array")
+			in.Kinds = []string{}
 		case np == 0:
 			in.Kinds = []string{}
 		case np == 1 && form < 2:
@@ -702,7 +790,7 @@ func Run(cfg *common.Config) (*common.Report, error) {
 		}
 		g.mark(fmt.Sprintf("proofs=%d", np))
 		in.Doc = string(doc.Bytes())
-		// proof variants: none, other proofs, one proof edited, unknown only
+		// proof variants: none, other proofs, one proof edited
 		in.Variants = append(in.Variants, "")
 		if i%2 == 0 {
 			p1, _ := g.proof()
@@ -714,24 +802,12 @@ func Run(cfg *common.Config) (*common.Report, error) {
 			e.Set("addedMember", Obj().Set("k", Num("1e2")))
 			in.Variants = append(in.Variants, string(e.Bytes()))
 		}
-		before := len(rep.Failures)
-		d.credCase(in)
-		c := d.cases[len(d.cases)-1]
-		if c.o.root != "" {
-			okRoots++
-		} else if os.Getenv("C14_DEBUG") != "" {
-			fmt.Fprintf(os.Stderr, "no root: decode=%q enc=%q mz=%q\n%s\n", c.o.decodeErr, c.o.encErr, c.o.mzErr, in.Doc)
-		}
+		j := &job{in: in, feat: g.feat, dkey: "valid", sample: i%40 == 0, isValid: true}
 		for k := range g.feat {
-			rep.Count("feature:" + k)
+			j.counts = append(j.counts, "feature:"+k)
 		}
-		rep.Distinct("valid|" + featKey(g.feat) + "|" + strings.Join(c.o.kinds, ","))
-		if i%40 == 0 || len(rep.Failures) > before {
-			rep.Sample(map[string]any{"doc": json.RawMessage(in.Doc), "proof_kinds": c.o.kinds, "root": c.o.root, "merklize_error": c.o.mzErr})
-		}
-	}
-	if okRoots*10 < nValid*9 {
-		return nil, fmt.Errorf("only %d of %d supported-shape documents merklize: generator or contexts are broken", okRoots, nValid)
+		sort.Strings(j.counts)
+		jobs = append(jobs, j)
 	}
 	// B. outside the supported shape: correspondence with the model, no panics
 	nOdd := cfg.Pick(130, 1300)
@@ -740,14 +816,7 @@ func Run(cfg *common.Config) (*common.Report, error) {
 		doc := g.credential()
 		what := d.oddify(g, doc)
 		in := &Input{Kind: "cred", Stream: "odd", Doc: string(doc.Bytes())}
-		d.credCase(in)
-		c := d.cases[len(d.cases)-1]
-		rep.Count("odd:" + what)
-		cls := "ok"
-		if c.o.decodeErr != "" {
-			cls = "err"
-		}
-		rep.Distinct("odd|" + what + "|" + cls + "|" + strings.Join(c.o.kinds, ","))
+		jobs = append(jobs, &job{in: in, feat: map[string]bool{}, dkey: "odd|" + what, counts: []string{"odd:" + what}, sample: i%60 == 0})
 	}
 	// C. DID documents
 	nDid := cfg.Pick(100, 900)
@@ -755,14 +824,12 @@ func Run(cfg *common.Config) (*common.Report, error) {
 		g.feat = map[string]bool{}
 		doc := g.didDoc()
 		in := &Input{Kind: "did", Stream: "valid", Doc: string(doc.Bytes())}
-		d.didCase(in)
+		j := &job{in: in, feat: g.feat, dkey: "did", sample: i%50 == 0}
 		for k := range g.feat {
-			rep.Count("feature:did-" + k)
+			j.counts = append(j.counts, "feature:did-"+k)
 		}
-		rep.Distinct("did|" + featKey(g.feat) + "|" + strings.Join(d.cases[len(d.cases)-1].o.kinds, ","))
-		if i%50 == 0 {
-			rep.Sample(map[string]any{"did_doc": json.RawMessage(in.Doc), "auth_kinds": d.cases[len(d.cases)-1].o.kinds})
-		}
+		sort.Strings(j.counts)
+		jobs = append(jobs, j)
 	}
 	nOddDid := cfg.Pick(40, 400)
 	for i := 0; i < nOddDid; i++ {
@@ -770,15 +837,24 @@ func Run(cfg *common.Config) (*common.Report, error) {
 		doc := g.didDoc()
 		what := d.oddifyDID(g, doc)
 		in := &Input{Kind: "did", Stream: "odd", Doc: string(doc.Bytes())}
-		d.didCase(in)
-		rep.Count("odd-did:" + what)
-		rep.Distinct("odd-did|" + what + "|" + d.cases[len(d.cases)-1].o.decodeErr)
+		jobs = append(jobs, &job{in: in, feat: map[string]bool{}, dkey: "odd-did|" + what, counts: []string{"odd-did:" + what}})
+	}
+	t0 := time.Now()
+	d.runJobs(jobs)
+	t1 := time.Now()
+	okRoots, nv := d.merge(jobs)
+	if okRoots*10 < nv*9 {
+		return nil, fmt.Errorf("only %d of %d supported-shape documents merklize: generator or contexts are broken", okRoots, nv)
 	}
 	rep.Exhaustive = false
 	rep.Notes = append(rep.Notes,
 		"encoding/json's reflection semantics are modelled (coq/Codec/Model.v) and compared per run, not verified",
-		fmt.Sprintf("%d of %d supported-shape documents merklize successfully on both paths", okRoots, nValid))
-	return rep, d.writeShards()
+		fmt.Sprintf("%d of %d supported-shape documents merklize successfully on both paths", okRoots, nv))
+	err := d.writeShards()
+	if os.Getenv("C14_DEBUG") != "" {
+		fmt.Fprintf(os.Stderr, "timing: generate %v, run %v, shards %v\n", t0.Sub(tStart), t1.Sub(t0), time.Since(t1))
+	}
+	return rep, err
 }
 
 // oddify pushes a supported-shape document outside the shape; returns the class.
